@@ -49,7 +49,7 @@ THEOREMS = [
     'C06.refines_extend', 'C06.extend_index_sel', 'C06.tailSel_pos', 'C06.extend_self_rows', 'C06.extend_zero_rows',
     # composite calls decompose into the building blocks above
     'C06.extendInt_decomp', 'C06.propGetAtoms_decomp', 'C06.ixGet_decomp', 'C06.sysPropSetScaled_decomp',
-    'C06.propAtype_none_decomp',
+    'C06.propAtype_none_decomp', 'C06.propAtype_some_decomp', 'C06.propAtype_some_existing',
     # copying operations: results in fresh buffers, operands unchanged
     'C06.frame_fresh_meaning', 'C06.extend_fresh_unchanged', 'C06.extendInt_fresh_unchanged',
     'C06.propGetAtoms_fresh_unchanged', 'C06.new_fresh_unchanged',
@@ -77,10 +77,12 @@ PARTIAL = {
         'sysPropSetScaled_decomp (prop(key, index, value\') with value\' the exact Cartesian image computed by '
         'Box.relToCart: refines_propSet), propAtype_none_decomp (view[key] = value[atype-1] as one whole-column '
         'assignment: viewSet_existing_refines / viewSet_new_refines; the literal is shown well-formed by picked_ok). '
-        'Not decomposed: prop_atype(key, value, atype=t) (optional zero column, guard, boolean-mask assign: its steps '
-        'are covered by viewSet_new_refines and assign_spec but the composition is not stated) and atoms_extend '
-        '(symbols read, extend, optional scaled write of pos[self.natoms:], System(...)): for both the invariant and '
-        'the frame are proved and the values are covered on every run by the correspondence and the oracle.',
+        'propAtype_some_decomp / propAtype_some_existing (prop_atype(key, value, atype=t) for t among the atom types: '
+        'for a new key view[key] = zeros_like(value) (viewSet_new_refines), then the atype guard, then ONE boolean-mask '
+        'assignment with the mask atype == t taken before the write: assign_spec). '
+        'Not decomposed: atoms_extend (symbols read, extend, optional scaled write of pos[self.natoms:], System(...)): '
+        'the invariant and the frame are proved and the values are covered on every run by the correspondence and the '
+        'oracle.',
     'aliasing of slices':
         'GetItemRes.slice_is_view states that a basic slice of more than one atom holds the views p.arr[sel] of the '
         "operand's arrays (so writes through either are seen by both, refines_propSet's last clause says exactly "
